@@ -679,8 +679,14 @@ func (u *UlimitsConfig) MarshalJSON() ([]byte, error) {
 	if u.Single != 0 {
 		return json.Marshal(u.Single)
 	}
-	// Pass as a value to avoid re-entering this method and use the default implementation
-	return json.Marshal(*u)
+	// soft and hard are both required: render them also when one of them is 0 (`core: {soft: 0, hard: 0}`)
+	return json.Marshal(struct {
+		Soft int `json:"soft"`
+		Hard int `json:"hard"`
+	}{
+		Soft: u.Soft,
+		Hard: u.Hard,
+	})
 }
 
 // NetworkConfig for a network
